@@ -664,6 +664,10 @@ def check_exact_numbers(ctx) -> None:
 
 
 def run(ctx) -> None:
+    from .c10 import check_readers_not_memoised
+
+    ctx.rule("C11.reread", "T4: the functions that read a document from the file system / the parser are not memoised on the file name", floor=2)
+    ctx.guard(check_readers_not_memoised, ctx, "C11.reread", ("cobra.io.json", "cobra.io.yaml", "cobra.io.mat"))
     ctx.rule("C11.exact", "T2: the writers never turn a number into text with fewer than 17 significant digits (format specs resolved through constants), nor round it", floor=1)
     ctx.guard(check_exact_numbers, ctx)
     from . import replayform as _rp
